@@ -20,11 +20,18 @@ CLAIMED = {
         technique="Lean 4 compiler-correctness theorem (source semantics vs bash model, scalar fragment) + refinement to a block grammar + byte-for-byte model/implementation correspondence + both semantic models validated against /bin/bash and the reference interpreter",
         design="7/C01"),
     "C02": dict(
-        text="Theorems (Props/C02.lean): a used call yields exactly the declared number of values; return stores _rv0.. in order and the call site copies them in order into fresh "
-             "helpers right after the call line; parameters are local copies of $1..$n in order; non-global names inside a function are f<counter>_<name>, globals unchanged; "
-             "each function gets a new counter; multi-assignment reads only _ma<i> temporaries. Behaviour under bash: execution oracle with name reuse across scopes.",
-        note=TB + "bash's `local`, positional parameters and function-call semantics are outside the theorems (execution oracle).",
-        technique="Lean 4 theorems on the calling-convention model + correspondence + execution oracle",
+        text="SEMANTIC PRESERVATION WITH FUNCTIONS (Props/C02Sem.lean, bash_preserves_semantics_with_functions): for every program of the fragment fragP - top-level function "
+             "definitions with any number of parameters and return values, locals, calls as arguments, calls of earlier functions in later ones, globals written from inside "
+             "functions, plus everything of the scalar fragment - the emitted lines are a block structure whose execution in the Lean bash model Sem2/Bash (positional parameters, "
+             "`local` with restore on return, return registers, exit) prints what the source semantics Sem2/Src prints and ends with the same status; proved by induction over the "
+             "program with the table of translated functions as invariant (each body proved once against every later state) and a frame theorem of the bash model (a function's lines "
+             "assign only f<n>_ names, globals, _rv registers and its own loop flags: a caller's locals, helpers and temporaries survive every call). Also (Props/C02.lean): a used "
+             "call yields exactly the declared number of values; return stores _rv0.. in order and the call site copies them into fresh helpers right after the call line; "
+             "parameters are local copies of $1..$n in order; name mangling; each function gets a new counter; multi-assignment reads only _ma<i> temporaries. Tie: whole model "
+             "pipeline vs real Transpile byte for byte, and in every run Sem2/Bash next to /bin/bash and Sem2/Src next to the reference interpreter on the generated programs "
+             "(about 300 of 406 in the theorem's fragment in the quick tier); recursion, slices and command calls are outside the fragment and covered by the execution oracle only.",
+        note=TB + "that /bin/bash executes the rendered lines as Sem2/Bash says (in particular `local`, positional parameters, `return`) and that Sem2/Src is Go's meaning is validated by execution in every run, not proved.",
+        technique="Lean 4 compiler-correctness theorem for programs with functions (source semantics vs bash model) + theorems on the calling-convention model + byte-for-byte correspondence + both semantic models validated against /bin/bash and the reference interpreter + execution oracle",
         design="7/C02"),
     "C03": dict(
         text="Theorems (Props/C03.lean): slice literal = increment _dvc, name a new array, store elements 0..n-1 in order; element store = one _sah call with the zero value of the "
